@@ -263,6 +263,28 @@ std::string vh::execute(toks_t& toks, std::string& aug)
         // (every third one, by length), the thresholds stay reals - the counting rule must not depend on the value type
         const auto as_int = values.size() % 3 == 1 && std::all_of(values.begin(), values.end(), is_integral);
         auto       ivalues = as_int ? convert<std::vector<int64_t>>(values) : std::vector<int64_t>{};
+        // ... and, every third list again, in a NARROW integer container when every value fits: the bins' sums (30 values of size
+        // 10 leave int8, 3000 leave int16) must still be accumulated in the scalar type (seeded change C20-h1)
+        const auto fits = [&](const double lim)
+        { return std::all_of(values.begin(), values.end(), [&](const double v) { return is_integral(v) && std::fabs(v) <= lim; }); };
+        if (values.size() % 3 == 2 && ctor == "thr" && fits(127.0))
+        {
+            const auto thr     = toks.fs();
+            const auto queries = toks.fs();
+            if (thr.empty())
+            {
+                throw bad_op("assert(m_thresholds.size() > 0)");
+            }
+            if (values.size() % 2 == 0)
+            {
+                auto       v8 = convert<std::vector<int8_t>>(values);
+                const auto h  = histogram_t::make_from_thresholds(v8.begin(), v8.end(), to_tensor(thr));
+                return print_hist(h, queries);
+            }
+            auto       v16 = convert<std::vector<int16_t>>(values);
+            const auto h   = histogram_t::make_from_thresholds(v16.begin(), v16.end(), to_tensor(thr));
+            return print_hist(h, queries);
+        }
         if (ctor == "thr")
         {
             const auto thr     = toks.fs();
